@@ -288,8 +288,9 @@ def impl_main(payload):
                 if incumbent is not None:
                     g.set_local_optimization_params(incumbent)
                     before = float(base(g.copy()))
+                reg = EquationRegressor(g, metric=metric, algo=algo, fit_retries=2)
                 try:
-                    EquationRegressor(g, metric=metric, algo=algo, fit_retries=2).fit(x, y)
+                    reg.fit(x, y)
                 except Exception as e:  # noqa
                     seqv.append("EquationRegressor(metric=%r, algo=%r).fit raised %r" % (metric, algo, e))
                     continue
@@ -302,6 +303,24 @@ def impl_main(payload):
                 if before is not None and not want <= before * (1 + 1e-12):
                     seqv.append("EquationRegressor(metric=%r, algo=%r): an equation holding constants %r (%s %r) was fitted again and now "
                                 "holds %r (%s %r)" % (metric, algo, incumbent, metric, before, held, metric, want))
+                if incumbent is None:
+                    # the same regressor, the same X array object, NEW targets: the fit is about the data it was given now
+                    y_b = -3 * x + 0.5
+                    y_b[[7, 30], 0] += [25.0, -20.0]
+                    base_b = ExplicitRegression(ExplicitTrainingData(x, y_b), metric=metric)
+                    inc_b = float(base_b(g.copy()))
+                    try:
+                        reg.fit(x, y_b)
+                    except Exception as e:  # noqa
+                        seqv.append("EquationRegressor(metric=%r, algo=%r).fit on new targets raised %r" % (metric, algo, e))
+                        continue
+                    want_b, got_b = float(base_b(g.copy())), float(g.fitness)
+                    if not (abs(got_b - want_b) <= 1e-12 * (1 + abs(want_b)) or (math.isnan(got_b) and math.isnan(want_b))):
+                        seqv.append("EquationRegressor(metric=%r, algo=%r) fitted to new targets (same X array): reported fitness %r, the %s "
+                                    "of the constants held on the data just given is %r" % (metric, algo, got_b, metric, want_b))
+                    elif not want_b <= inc_b * (1 + 1e-12):
+                        seqv.append("EquationRegressor(metric=%r, algo=%r) fitted to new targets: %s went from %r to %r"
+                                    % (metric, algo, metric, inc_b, want_b))
     return dict(results=results, sequences=dict(runs=seqn, viol=seqv))
 
 
